@@ -66,7 +66,10 @@ def select(tier, pack):
     return sorted(idx)
 
 
-TAG_ITEMS = ["s", "", 0, 5, -5, 2 ** 53 + 1, 2 ** 63, 2 ** 64 - 1, 1.5, 1e100, True, False, None, [], ["n"], [["n"]], {}, {"k": "v"}]
+TAG_ITEMS = ["s", "", 0, 5, -5, 2 ** 53 + 1, 2 ** 63, 2 ** 64 - 1, 1.5, 1e100, True, False, None, [], ["n"], [["n"]], {}, {"k": "v"},
+             # numbers at and beyond the edges of the 64-bit and double ranges (a decoder's "native" number mode rounds these)
+             2 ** 63 - 1, -2 ** 63, -2 ** 63 - 1, 2 ** 64, 2 ** 64 + 1, 10 ** 30, -10 ** 30, 0.1 + 0.2, 1 / 3, 5e-324, 1.7976931348623157e308, -0.0, 1e21,
+             123456789.12345679, 2.2250738585072014e-308, 9007199254740993.0]
 SIDS = ['a"b', "a\\b", "\\", '"', "\x00", "\x01\x02\x1f", "\n\r\t", "\x7f", "  ", "\U0001f600", "", "x" * 64, "x" * 300, "é",
         "\\u0041", "\\\"", "sub", "]", '","x', "null", "﻿"]
 SID_NONSTR = [5, 0, -1, 1.5, True, False, None, [], [1], ["a"], {}, {"a": 1}, 2 ** 64]
@@ -119,6 +122,7 @@ def cases(tier):
             out.append(("kindgrammar", backend, str(kind), (), tier))
         out.append(("sidgrammar", backend, "", (), tier))
         out.append(("framekinds", backend, "", (), tier))
+        out.append(("echo", backend, "", (), tier))
     return out
 
 
@@ -422,6 +426,49 @@ def run_framekinds(case):
     return viol, n
 
 
+def run_echo(case):
+    """client-chosen text in every position the relay may quote back in an OK or NOTICE message (NIP-42 relay / challenge tags of a
+    correctly signed AUTH event, event ids, subscription ids of refused REQs, filter members, command names)"""
+    from ..harness import World, CLOCK
+
+    _, backend, _, _, tier = case
+    seq.close_all()
+    viol = []
+    cid = "%s|echo" % backend
+    w = World(backend, config={"authentication": {"enabled": True, "actions": {"save": "a", "query": "a"}, "relay_urls": ["ws://relay.test"]}},
+              storage_options={"stats_interval": 1e15}, message_timeout=1e300)
+    n = 0
+    try:
+        c = w.connect("c")
+        w.run(1e6)
+        first = [parse_strict(r) for r in c.sent()]
+        challenge = first[0][1] if first and first[0][0] == "AUTH" else "none"
+        ev = make_event("A", 1, 1000, [], "x")
+        for h in SIDS + ["%s", "{0}", "{e}", "\ud800", "</script>", "\x1b[31m"]:
+            frames_in = [
+                ["AUTH", make_event("K1", 22242, int(CLOCK.now), [["relay", h], ["challenge", challenge]], "")],
+                ["AUTH", make_event("K1", 22242, int(CLOCK.now), [["relay", "ws://relay.test"], ["challenge", h]], "")],
+                ["AUTH", make_event("K1", 22242, int(CLOCK.now), [["relay", "ws://relay.test" + h], ["challenge", challenge + h]], h)],
+                ["AUTH", {"id": h, "pubkey": h, "sig": h, "kind": 22242, "created_at": int(CLOCK.now), "tags": [["relay", h]], "content": h}],
+                ["EVENT", dict(ev, id=h)], ["EVENT", dict(ev, pubkey=h)], ["EVENT", dict(ev, sig=h)], ["EVENT", {"id": h}],
+                ["REQ", h, {"kinds": h}], ["REQ", h, {h: [h]}], ["REQ", h, h], ["REQ", h, {"ids": [h]}], ["REQ", h, {"#e": h}], ["CLOSE", h], [h, h],
+                [h], ["AUTH", h], ["EVENT", h], ["REQ", h],
+            ]
+            for fr in frames_in:
+                n0 = len(c.transcript)
+                if c.closed_by_relay is not None:
+                    break
+                w.send("c", fr, 1e6)
+                n += 1
+                raws = [t[2] for t in c.transcript[n0:] if t[0] == "send"]
+                check_frames(raws, viol, cid, "echo|%s|%s" % (json.dumps(h)[:24], json.dumps(fr)[:40]))
+        if c.closed_by_relay is not None:
+            viol.append({"case": cid, "clause": "frame-is-json", "sig": "echo|closed", "detail": "the relay closed the connection during the echo scenario: %r" % (c.closed_by_relay,)})
+    finally:
+        w.close()
+    return viol, n
+
+
 def run_case(case):
     mode = case[0]
     extra = {}
@@ -437,6 +484,8 @@ def run_case(case):
         extra["special_kind_tag_shapes_accepted_%s" % case[1]] = acc
     elif mode == "sidgrammar":
         viol, n = run_sidgrammar(case)
+    elif mode == "echo":
+        viol, n = run_echo(case)
     else:
         viol, n = run_framekinds(case)
     extra["roundtrips_%s" % mode] = n
@@ -454,7 +503,9 @@ def coverage(tier, agg):
                 "values at tag[0], tag[1], tag[2] plus empty tag / empty list ('if accepted'); kind grammar: %d special kinds (replaceable, deletion, "
                 "ephemeral, parameterized, boundaries) x %d shapes of the tags the storage code interprets (d, e, a, p, expiration, delegation: bare, "
                 "empty, repeated, non-string, malformed); sub-id grammar: %d strings + %d non-string values, "
-                "stored and live; frame kinds: AUTH, OK true/duplicate/invalid/rate-limited, NOTICE, EOSE, EVENT. Oracle: stdlib json parse, "
+                "stored and live; frame kinds: AUTH, OK true/duplicate/invalid/rate-limited, NOTICE, EOSE, EVENT; echo: hostile strings in every position the relay may "
+                "quote back in OK / NOTICE text (relay and challenge tags of correctly signed AUTH events, ids, sub ids and filter members of refused REQs, command "
+                "names). Oracle: stdlib json parse, "
                 "NIP-01 frame shape, sub id equal, event field-for-field equal (type-exact) and still authentic. A failing packet is shrunk to "
                 "single code points for the report." % (npk, len(packets(PACK)), len(TAG_ITEMS), len(KIND_GRAMMAR), len(SPECIAL_TAGS), len(SIDS), len(SID_NONSTR)),
         "backends": ["sql", "kv"],
